@@ -149,6 +149,8 @@ def water_scenarios(tier, bases=None, menus=None, full=True):
     if tier == "quick":
         yield from config_scenarios(bases, menus, 1)
         yield from weather_scenarios(bases, stride=4)
+        if full is not None:
+            yield from full_length_scenarios(FULL_VARIANTS)   # recorded climates at full length (gradual regimes the words lack)
     else:
         yield from config_scenarios(bases, menus, 2)
         yield from weather_scenarios(bases, stride=1, pairs=True, symbols=("S", "M", "D", "C", "Z", "T"))
